@@ -16,7 +16,7 @@ LEVEL = 'model_checking'
 ENCODED = ['interfaces.comms_core.Comms: setForwardData, deleteForwardingRule, setDataSink, setDataSource, getData, '
            'sendData, spin/_single_spin, getCom, openCom, closeCom', 'interfaces.comms_object.CommsObject (base of the doubles)']
 BOUNDS = {
-    'quick': 'hub with 2 registered endpoints + 1 unknown name, 2 sinks, 2 sources, 2 message values; (i) ALL histories of '
+    'quick': 'hub with 2 registered endpoints + 1 unknown name, 2 sinks (registered as bound methods), 2 sources, 3 message values incl. the empty string; endpoints are in-memory CommsObject doubles and, for the depth-2 histories, also real UDPObject instances over a socket double; (i) ALL histories of '
              'depth 2 over the 8 operation kinds with symbolic arguments (sharded by first operation), messages or no-data '
              'at every receive; (ii) inductive step: one operation from an arbitrary rule-table state satisfying the '
              'representation invariant (bit-encoded rule tables: per operation only the tables it can read are symbolic - sizes in '
@@ -24,7 +24,7 @@ BOUNDS = {
              'delivers per the model',
     'thorough': 'same plus ALL histories of depth 3 (VERIF_C19_DEPTH=4: depth 4 sharded by the first two operations)',
 }
-OUTSIDE = ['real UDP sockets (UDPObject.getData/sendData are exercised only through the doubles\' interface)',
+OUTSIDE = ['real UDP sockets: the real UDPObject.getData/sendData run over an in-memory socket double whose recvfrom may time out',
            'more than 2 endpoints / sinks / sources', 'history depth beyond the bound except through the inductive step']
 ASSUMPTIONS = ['CrossHair\'s modelling of int/dict/list/str', 'endpoints are in-memory doubles of the CommsObject interface',
                'only "Confirmed over all paths" counts as proved; "Not confirmed"/"Unable to meet precondition" are inconclusive']
@@ -149,6 +149,8 @@ def cases(tier, seed):
     for op0 in range(8):
         add('hist_d2_op%d' % op0, G.hist_spec(2, [op0]))
     add('twin_d2_op0', G.hist_spec(2, [0]), want='False')
+    for op0 in range(8):
+        add('udp_hist_d2_op%d' % op0, G.hist_spec(2, [op0], 'udp'))
     for op in range(8):
         st = STEP_STATE[tier][op]
         heavy = op in (4, 5, 6)
